@@ -1,0 +1,127 @@
+//! Verification hooks. Compiled only with `--cfg sneldb_verif`; never part of a normal build.
+//!
+//! * clock overrides (a script of millisecond readings for the event-id generator, a fixed
+//!   "now" in seconds for `shared::time::now` and the STORE handler);
+//! * labelled step points: `vp("name")` appends the label to an in-memory trace, aborts the
+//!   process when the harness armed `abort@name#n`, and blocks while `park@name` is armed.
+use std::collections::{HashMap, VecDeque};
+use std::sync::atomic::{AtomicU64, Ordering};
+use std::sync::{Condvar, Mutex, OnceLock};
+
+static CLOCK_MS: OnceLock<Mutex<VecDeque<u64>>> = OnceLock::new();
+static CLOCK_MS_LAST: AtomicU64 = AtomicU64::new(0);
+static CLOCK_MS_STICKY: AtomicU64 = AtomicU64::new(0);
+static NOW_SECS: AtomicU64 = AtomicU64::new(0);
+
+/// Script of readings returned by the event-id generator's clock, in order. When the script
+/// is exhausted the last reading keeps being returned plus one per call if `advance_after`
+/// is set (so `wait_next_millis` terminates), otherwise the real clock is used again.
+pub fn set_clock_script_ms(readings: Vec<u64>, advance_after: bool) {
+    let q = CLOCK_MS.get_or_init(|| Mutex::new(VecDeque::new()));
+    *q.lock().unwrap() = readings.into();
+    CLOCK_MS_STICKY.store(if advance_after { 1 } else { 0 }, Ordering::SeqCst);
+    CLOCK_MS_LAST.store(0, Ordering::SeqCst);
+}
+
+pub fn clock_ms() -> Option<u64> {
+    let q = CLOCK_MS.get()?;
+    let mut q = q.lock().unwrap();
+    if let Some(v) = q.pop_front() {
+        CLOCK_MS_LAST.store(v, Ordering::SeqCst);
+        return Some(v);
+    }
+    if CLOCK_MS_STICKY.load(Ordering::SeqCst) == 1 {
+        let v = CLOCK_MS_LAST.fetch_add(1, Ordering::SeqCst) + 1;
+        return Some(v);
+    }
+    None
+}
+
+/// Fixed wall-clock second (0 = use the real clock).
+pub fn set_now_secs(secs: u64) {
+    NOW_SECS.store(secs, Ordering::SeqCst);
+}
+
+pub fn now_secs() -> Option<u64> {
+    match NOW_SECS.load(Ordering::SeqCst) {
+        0 => None,
+        v => Some(v),
+    }
+}
+
+struct Steps {
+    trace: Vec<String>,
+    hits: HashMap<String, u64>,
+    abort_at: Option<(String, u64)>,
+    parked: HashMap<String, bool>,
+}
+
+static STEPS: OnceLock<(Mutex<Steps>, Condvar)> = OnceLock::new();
+
+fn steps() -> &'static (Mutex<Steps>, Condvar) {
+    STEPS.get_or_init(|| {
+        (
+            Mutex::new(Steps {
+                trace: Vec::new(),
+                hits: HashMap::new(),
+                abort_at: None,
+                parked: HashMap::new(),
+            }),
+            Condvar::new(),
+        )
+    })
+}
+
+/// A labelled step point.
+pub fn vp(name: &str) {
+    let (m, cv) = steps();
+    let mut s = m.lock().unwrap();
+    let n = {
+        let e = s.hits.entry(name.to_string()).or_insert(0);
+        *e += 1;
+        *e
+    };
+    s.trace.push(name.to_string());
+    if let Some((ref a, k)) = s.abort_at {
+        if a == name && k == n {
+            eprintln!("VERIF-ABORT at {name}#{n}");
+            std::process::abort();
+        }
+    }
+    while s.parked.get(name).copied().unwrap_or(false) {
+        s.trace.push(format!("parked:{name}"));
+        s = cv.wait(s).unwrap();
+    }
+}
+
+/// Labelled step with a detail string (e.g. a segment id).
+pub fn vpd(name: &str, detail: &str) {
+    {
+        let (m, _) = steps();
+        m.lock().unwrap().trace.push(format!("{name}={detail}"));
+    }
+    vp(name);
+}
+
+pub fn arm_abort(name: &str, hit: u64) {
+    steps().0.lock().unwrap().abort_at = Some((name.to_string(), hit));
+}
+
+pub fn park(name: &str) {
+    steps().0.lock().unwrap().parked.insert(name.to_string(), true);
+}
+
+pub fn release(name: &str) {
+    let (m, cv) = steps();
+    m.lock().unwrap().parked.insert(name.to_string(), false);
+    cv.notify_all();
+}
+
+pub fn take_trace() -> Vec<String> {
+    std::mem::take(&mut steps().0.lock().unwrap().trace)
+}
+
+pub fn is_parked_at(name: &str) -> bool {
+    let s = steps().0.lock().unwrap();
+    s.trace.iter().rev().take_while(|t| !t.starts_with("released:")).any(|t| *t == format!("parked:{name}"))
+}
